@@ -6,12 +6,12 @@
 // talk about is recorded as one ndjson event stream ordered by one sequence number that is
 // assigned under one mutex at the linearization point of the event:
 //
-//   Save     after the inner ILogDB.SaveRaftState returned (the update is durable)
-//   Send     when a message batch reaches ITransport (true egress), before it is delivered
-//   Inv/Res  immediately before a client call / immediately after it returned
-//   Enter/Exit   first / last statement of every user state machine method
-//   Crash    the instant a host loses durability and the network (one critical section)
-//   Boot     what the log store returned when the replica was restarted
+//	Save     after the inner ILogDB.SaveRaftState returned (the update is durable)
+//	Send     when a message batch reaches ITransport (true egress), before it is delivered
+//	Inv/Res  immediately before a client call / immediately after it returned
+//	Enter/Exit   first / last statement of every user state machine method
+//	Crash    the instant a host loses durability and the network (one critical section)
+//	Boot     what the log store returned when the replica was restarted
 //
 // A crash is simulated in-process: at one instant (optionally at the N-th file system
 // operation of the host) the host's file system stops honouring syncs and its network is cut;
@@ -21,10 +21,10 @@
 package dragonboat
 
 import (
-	"errors"
 	"bufio"
 	"context"
 	"encoding/json"
+	"errors"
 	"fmt"
 	"math/rand"
 	"os"
@@ -182,10 +182,10 @@ type nhNet struct {
 	mu      sync.Mutex
 	rec     *nhRec
 	eps     map[string]*nhEndpoint
-	dead    map[string]bool       // crashed hosts: nothing leaves, nothing arrives
-	cut     map[[2]string]bool    // directed link cut
-	loss    int                   // per mille
-	delayUs int                   // max random delay
+	dead    map[string]bool    // crashed hosts: nothing leaves, nothing arrives
+	cut     map[[2]string]bool // directed link cut
+	loss    int                // per mille
+	delayUs int                // max random delay
 	rng     *rand.Rand
 	record  bool
 	wg      sync.WaitGroup
@@ -453,38 +453,38 @@ func (i *nhInjector) MaybeError(op gvfs.Op) error {
 }
 
 type nhHost struct {
-	c     *nhCluster
-	id    int // 1-based; replica id = host id
-	addr  string
-	mem   *gvfs.MemFS
-	fs    vfs.IFS
-	inj   *nhInjector
-	nh    *NodeHost
-	alive bool
+	c      *nhCluster
+	id     int // 1-based; replica id = host id
+	addr   string
+	mem    *gvfs.MemFS
+	fs     vfs.IFS
+	inj    *nhInjector
+	nh     *NodeHost
+	alive  bool
 	joined bool
-	ssDir string
-	sms   []*nhSM // state machine incarnations created on this host
-	inc   int     // incarnation counter of the host
-	lagUs int32 // Update of every state machine of this host sleeps this long (set by fault schedules)
-	smu   sync.Mutex
+	ssDir  string
+	sms    []*nhSM // state machine incarnations created on this host
+	inc    int     // incarnation counter of the host
+	lagUs  int32   // Update of every state machine of this host sleeps this long (set by fault schedules)
+	smu    sync.Mutex
 }
 
 type nhCluster struct {
-	rec     *nhRec
-	net     *nhNet
-	hosts   []*nhHost
-	shard   uint64
-	shards  []uint64
-	slowUs  int
+	rec          *nhRec
+	net          *nhNet
+	hosts        []*nhHost
+	shard        uint64
+	shards       []uint64
+	slowUs       int
 	armOnRecover bool
-	ssShards uint64
-	smType  string // regular | concurrent | ondisk
-	store   string // pebble | tan
-	rng     *rand.Rand
-	rtt     uint64
-	cfgOf   func(replica uint64) config.Config
-	seed    int64
-	members map[uint64]string
+	ssShards     uint64
+	smType       string // regular | concurrent | ondisk
+	store        string // pebble | tan
+	rng          *rand.Rand
+	rtt          uint64
+	cfgOf        func(replica uint64) config.Config
+	seed         int64
+	members      map[uint64]string
 }
 
 func newNhCluster(rec *nhRec, n int, smType string, store string, seed int64) *nhCluster {
@@ -530,11 +530,11 @@ func (c *nhCluster) nhConfig(h *nhHost) config.NodeHostConfig {
 	ex.LogDBFactory = &nhLogDBFactory{c: c, h: h, inner: inner}
 	ex.TransportFactory = &nhTransportFactory{net: c.net}
 	return config.NodeHostConfig{
-		NodeHostDir:    fmt.Sprintf("/nh%d", h.id),
-		WALDir:         fmt.Sprintf("/nh%d", h.id),
-		RTTMillisecond: c.rtt,
-		RaftAddress:    h.addr,
-		Expert:         ex,
+		NodeHostDir:       fmt.Sprintf("/nh%d", h.id),
+		WALDir:            fmt.Sprintf("/nh%d", h.id),
+		RTTMillisecond:    c.rtt,
+		RaftAddress:       h.addr,
+		Expert:            ex,
 		RaftEventListener: &nhRaftListener{c: c, h: h},
 	}
 }
